@@ -317,8 +317,10 @@ class DemoStorage(ConflictResolvingStorage):
             if self._temporary_changes:
                 # The changes storage cannot see references from or to
                 # objects of the base: only collect garbage if the base
-                # holds no objects.
-                return self.changes.pack(t, referencesf, gc=not len(self.base))
+                # holds nothing.  (len() of a stacked demo storage counts
+                # its own changes only, so ask for transactions.)
+                gc = self.base.lastTransaction() == ZODB.utils.z64
+                return self.changes.pack(t, referencesf, gc=gc)
         elif self._temporary_changes:
             return self.changes.pack(t, referencesf, gc=gc)
         elif gc:
